@@ -61,6 +61,10 @@ fn serve_label(status: u16, multipart: bool) -> String {
     }
 }
 
+pub fn check_serve_pub(c: &Case, acc: &mut Acc, c20: bool) -> Check {
+    check_serve(c, acc, c20)
+}
+
 fn check_serve(c: &Case, acc: &mut Acc, c20: bool) -> Check {
     let extra = 1 + (fingerprint(c) % 4) as usize;
     let served = match serve_case(&c.ent, &c.req, opts_for(&c.ent, extra)) {
